@@ -133,8 +133,13 @@ def setSeriesInTags (isAdd : Bool) (id : Nat) (keys : List (String × TagKey)) :
   | (k, v) :: rest =>
     let tk := (alookup keys k).getD {}
     let tv := (alookup tk.values v).getD {}
-    let tv' := { tv with series := if isAdd then sadd tv.series id else sdel tv.series id }
-    let tk' := { tk with values := aset tk.values v tv' }
+    -- fix C14-undelete-tag-on-series-add: adding a series clears the tombstone flags of its
+    -- key and value (a removal leaves them as they are)
+    let tv' : TagValue :=
+      if isAdd then { deleted := false, series := sadd tv.series id }
+      else { tv with series := sdel tv.series id }
+    let tk' : TagKey :=
+      { deleted := if isAdd then false else tk.deleted, values := aset tk.values v tv' }
     setSeriesInTags isAdd id (aset keys k tk') rest
 
 def execSeries (sf : SFile) (d : FileData) (isAdd : Bool) (id : Nat) : FileData :=
